@@ -107,3 +107,158 @@ def decode_bool(buffer):
         raise DataError("not a buffer")
     data = read_exact(stream_of(buffer), 1)
     return data[0] != 0
+
+
+# ---------------------------------------------------------------------------------------------- floats
+def encode_real(name, value):
+    """REAL = IEEE-754 binary32, LREAL = binary64, least significant byte first (C-6.1).  A Python float that is
+    finite but too large for binary32 is outside REAL's domain."""
+    import struct
+    if not isinstance(value, (int, float)):
+        raise DataError("not a number")
+    try:
+        return struct.pack("<f" if name == "REAL" else "<d", value)
+    except (OverflowError, struct.error):
+        raise DataError("not representable")
+
+
+def decode_real(name, buffer):
+    import struct
+    if not isinstance(buffer, (bytes, BytesIO)):
+        raise DataError("not a buffer")
+    n = 4 if name == "REAL" else 8
+    data = read_exact(stream_of(buffer), n)
+    return struct.unpack("<f" if name == "REAL" else "<d", data)[0]
+
+
+# ---------------------------------------------------------------------------------------------- date and time
+def encode_date_and_time(time, date):
+    """DATE_AND_TIME = TIME_OF_DAY (UDINT, ms since midnight) followed by DATE (UINT, days since 1972-01-01)"""
+    return encode_int("UDINT", time) + encode_int("UINT", date)
+
+
+def decode_date_and_time(buffer):
+    if not isinstance(buffer, (bytes, BytesIO)):
+        raise DataError("not a buffer")
+    stream = stream_of(buffer)
+    t = from_le(read_exact(stream, 4), 4)
+    d = stream.read(2)
+    if len(d) < 2:
+        raise DataError("truncated")
+    return (t, from_le(d, 2))
+
+
+# ---------------------------------------------------------------------------------------------- strings
+#   kind: (width of the character-count prefix, width of one character)
+STRING_TYPES = {"STRING": (2, 1), "STRING2": (2, 2), "SHORT_STRING": (1, 1), "LOGIX_STRING": (4, 1)}
+TEXT_ENCODING = {1: "iso-8859-1", 2: "utf-16-le", 4: "utf-32-le"}
+
+
+def text_bytes(value, char_width):
+    """the characters as char_width-byte little-endian code units; a character that does not fit is a DataError"""
+    try:
+        data = value.encode(TEXT_ENCODING[char_width])
+    except UnicodeEncodeError:
+        raise DataError("character not representable")
+    if len(data) != char_width * len(value):
+        raise DataError("character not representable in one code unit")
+    return data
+
+
+def bytes_text(data, char_width):
+    try:
+        return data.decode(TEXT_ENCODING[char_width])
+    except UnicodeDecodeError:
+        raise DataError("malformed characters")
+
+
+def encode_string(kind, value):
+    pw, cw = STRING_TYPES[kind]
+    if not isinstance(value, str):
+        raise DataError("not a string")
+    if len(value) >= (1 << (8 * pw)):
+        raise DataError("too long for the count prefix")
+    return le_uint(len(value), pw) + text_bytes(value, cw)
+
+
+def decode_string(kind, buffer):
+    pw, cw = STRING_TYPES[kind]
+    if not isinstance(buffer, (bytes, BytesIO)):
+        raise DataError("not a buffer")
+    stream = stream_of(buffer)
+    n = from_le(read_exact(stream, pw), pw)
+    if n == 0:
+        return ""
+    data = stream.read(n * cw)
+    if len(data) < n * cw:
+        raise DataError("truncated string")
+    return bytes_text(data, cw)
+
+
+def encode_stringn(value, char_size):
+    """STRINGN = UINT character size, UINT character count, characters of that size"""
+    if not isinstance(value, str):
+        raise DataError("not a string")
+    if isinstance(char_size, bool) or not isinstance(char_size, int) or (char_size != 1 and char_size != 2 and char_size != 4):
+        raise DataError("unsupported character size")
+    if len(value) > 65535:
+        raise DataError("too long")
+    if char_size == 1:
+        # one byte per character: the characters must be single-byte in the type's encoding (UTF-8 => ASCII)
+        try:
+            data = value.encode("ascii")
+        except UnicodeEncodeError:
+            raise DataError("character needs more than one byte")
+    else:
+        data = text_bytes(value, char_size)
+    return le_uint(char_size, 2) + le_uint(len(value), 2) + data
+
+
+# ---------------------------------------------------------------------------------------------- byte strings
+def encode_nbytes(size, value):
+    """n_bytes(size): exactly `size` raw bytes (size == -1: all of them)"""
+    if not isinstance(value, (bytes, bytearray)):
+        raise DataError("not bytes")
+    if size == -1:
+        return bytes(value)
+    if len(value) < size:
+        raise DataError("too few bytes")
+    return bytes(value[:size])
+
+
+def decode_nbytes(size, buffer):
+    if not isinstance(buffer, (bytes, BytesIO)):
+        raise DataError("not a buffer")
+    stream = stream_of(buffer)
+    if size == -1:
+        data = stream.read()
+        if len(data) == 0:
+            raise BufferEmptyError()
+        return data
+    if size == 0:
+        raise BufferEmptyError()
+    return read_exact(stream, size)
+
+
+# ---------------------------------------------------------------------------------------------- bit strings
+def encode_bits(name, value):
+    """bit i of the unsigned integer is element i of the list (bit 0 = least significant, first on the wire)"""
+    n = BITSTRING_TYPES[name]
+    if not isinstance(value, (list, tuple)):
+        raise DataError("not a sequence of bools")
+    if len(value) != 8 * n:
+        raise DataError("wrong number of bits")
+    u = 0
+    for i in range(8 * n):
+        if value[i]:
+            u = u + (1 << i)
+    return le_uint(u, n)
+
+
+def decode_bits(name, buffer):
+    n = BITSTRING_TYPES[name]
+    if not isinstance(buffer, (bytes, BytesIO)):
+        raise DataError("not a buffer")
+    data = read_exact(stream_of(buffer), n)
+    u = from_le(data, n)
+    return [((u >> i) & 1) == 1 for i in range(8 * n)]
